@@ -664,6 +664,31 @@ def analyse(tier, seed):
             if v == "sat":
                 tok_witness[name] = w
 
+        # ---- (3) character level, all byte strings up to a bound: the lexer's state machine (rules, order,
+        #      push/pop) composed with the struct-tag grammar vs the README grammar (lib/c06bmc.py)
+        import c06bmc
+        n_char = 16 if tier == "quick" else 22
+        bmc_model = None
+        bmc_witnesses = []
+        try:
+            bmc_model = c06bmc.Model(dump, M_tok, R_char)
+            bq, bmc_witnesses, binc = c06bmc.compare(bmc_model, n_char, binary="z3", timeout=120 if tier == "quick" else 900,
+                                                     second="z3-new", second_upto=8 if tier == "quick" else 12)
+            res["inconclusive"] += binc
+            queries.append({"query": "character level: lexer state machine + struct tags vs README, every byte string of length <= %d" % n_char,
+                            "solver": "z3 4.8.12 (QF_BV), second opinion z3-new 5.1.0 on short lengths",
+                            "verdict": "sat" if bmc_witnesses else ("unknown" if binc else "unsat"),
+                            "queries": len(bq), "s": round(sum(q["s"] for q in bq), 1),
+                            "slowest_s": max(q["s"] for q in bq), "byte_classes": bmc_model.K,
+                            "automaton_sizes": {"lexer_rules": len(bmc_model.lexer.rules), "lexer_states": len(bmc_model.lexer.state_names),
+                                                "token_grammar_positions": len(bmc_model.gm.sets), "readme_positions": len(bmc_model.gr.sets)},
+                            "witnesses": [w for _, w in bmc_witnesses][:6]})
+            bad = c06bmc.self_check(bmc_model, ["/", "/a", "/{a}", "/{a: /x/}", "/{a: b}{c: d}/?{e}", "/a/?b", "", "a", "/{a: /x/,   b: **}",
+                                                "/{a:b", "/{a}}", "/{a: /x/b: /y/}", "/{a: b c: d}", "/a b", "/{a:\t/x/}"])
+            res["inconclusive"] += bad
+        except Unsupported as e:
+            res["inconclusive"].append("character-level comparison: %s" % e)
+
         # ---- samples: solver-drawn strings inside / outside the character-level language
         rng = random.Random(seed)
         alpha = sorted(alphabet(M_char) | alphabet(R_char))
@@ -692,6 +717,8 @@ def analyse(tier, seed):
         inst = {"i": "a", "g": "x"}
         for w in tok_witness.values():
             samples.add("".join(inst.get(c, c) for c in w))
+        for _, w in bmc_witnesses:
+            samples.add(w)
         for c in d_ident_impl + d_ident_doc:
             samples.add("/a" + c + "b")
         for c in d_regex_impl + d_regex_doc:
@@ -738,6 +765,10 @@ def analyse(tier, seed):
                     "class": "accepts-outside" if acc else "rejects-inside"})
             elif acc != in_m:
                 res["inconclusive"].append("translation of lexer rules + struct tags disagrees with the real parser on %r (real %s, model %s)" % (s, acc, in_m))
+            elif bmc_model is not None and bmc_model.sim_M(s) not in (None, acc):
+                res["inconclusive"].append("automaton model of lexer + struct tags disagrees with the real parser on %r (real %s)" % (s, acc))
+            elif bmc_model is not None and bmc_model.sim_R(s) not in (None, in_r):
+                res["inconclusive"].append("automaton model of the README grammar disagrees with its regular expression on %r" % s)
             if acc:
                 if nat["canonical"] != canonical_of(s):
                     res["violations"].append({"msg": "C06: rendering is not the input with spacing after ':' and ',' normalised", "input": s, "detail": nat["canonical"]})
